@@ -15,6 +15,8 @@ pub struct Binding {
   pub v: SV,
   /// how the binding came to be (for root-cause tags in violation signatures)
   pub origin: String,
+  /// the variable the defining expression read from, if it was a bare variable or an access into one
+  pub src: Option<String>,
 }
 pub type MStore = BTreeMap<String, Binding>;
 
@@ -371,12 +373,12 @@ impl Model {
               None => {
                 // an annotation the model cannot follow (or that cannot convert): f7
                 let mut st = s.clone();
-                st.insert(name.clone(), Binding { mutable: *mutable, v: SV::Empty, origin: format!("define-annot<-{}", e.form()) });
+                st.insert(name.clone(), Binding { mutable: *mutable, v: SV::Empty, origin: format!("define-annot<-{}", e.form()), src: e.vars().first().map(|s| s.to_string()) });
                 Verdict { must: Must::Either, err_names: vec![], ret: None, ret_flat: false, after: After::Unknown(name.clone(), st), fault: Some("f7-annotation".into()), combo, addressed: vec![] }
               }
               Some(v2) => {
                 let mut st = s.clone();
-                st.insert(name.clone(), Binding { mutable: *mutable, v: v2.clone(), origin: format!("define<-{}", e.form()) });
+                st.insert(name.clone(), Binding { mutable: *mutable, v: v2.clone(), origin: format!("define<-{}", e.form()), src: e.vars().first().map(|s| s.to_string()) });
                 let mut v = self.verdict(Must::Ok, After::Store(st), combo);
                 v.ret = Some(v2);
                 v
@@ -659,7 +661,7 @@ impl Model {
         }
         let mut st = s.clone();
         for (k, n) in names.iter().enumerate() {
-          st.insert(n.clone(), Binding { mutable: false, v: el[k].clone(), origin: format!("destructure<-{}", e.form()) });
+          st.insert(n.clone(), Binding { mutable: false, v: el[k].clone(), origin: format!("destructure<-{}", e.form()), src: e.vars().first().map(|s| s.to_string()) });
         }
         self.verdict(Must::Ok, After::Store(st), combo)
       }
